@@ -38,6 +38,8 @@ def run(rep, tier):
     nn_coverage(rep, F)
     line_line(rep, F)
     point_kernel(rep, F)
+    small_pair_tables(rep, F)
+    contains_point_table(rep, F)
 
 
 def dispatch(rep, F, D):
@@ -358,3 +360,153 @@ def point_kernel(rep, F, rule="R7.7"):
     else:
         rep.bad(rule, "point-kernel", "distance(Coord, Coord) is %s, expected hypot(dx, dy): squaring the differences first overflows / underflows for coordinates of extreme magnitude, so lengths "
                 "become inf or 0" % rets[:2], where=fs[0].loc())
+
+
+def small_pair_tables(rep, F, rule="R7.8", only=None):
+    """Every Euclidean Distance impl between Coord, Point and Line (whatever it delegates to, helpers of geo_types::private_utils inlined):
+    the value of the extracted path table on every witness of a 3x3 grid equals the exact minimum distance (tolerance 1e-9).  Covers the
+    point-to-SEGMENT kernel that Douglas-Peucker relies on (Distance<Coord, &Line>)."""
+    from ..numeval import NumEval, seg_dist, seg_seg_dist, segs_intersect
+    from ..evalterm import NoModel
+    import math
+    rep.rule(rule, "every Euclidean Distance impl between Coord, Point and Line: the path table (helpers inlined) gives the exact minimum distance on every witness pair of a 3x3 grid (distance to the SEGMENT, not to its supporting line; zero exactly when the operands share a point)")
+    grid = [{"x": x, "y": y} for x in range(3) for y in range(3)]
+    lines = [{"start": a, "end": b} for a in grid for b in grid]
+
+    def kind(ty):
+        ty = ty.lstrip("&")
+        for k in ("coord::Coord", "point::Point", "line::Line<"):
+            if k in ty:
+                return k.split("::")[1].rstrip("<")
+        return None
+
+    def values(k):
+        if k == "Coord":
+            return [(c, ("c", c)) for c in grid]
+        if k == "Point":
+            return [({"0": c}, ("c", c)) for c in grid]
+        return [(l, ("l", l)) for l in lines]
+
+    def exact(a, b):
+        if a[0] == "c" and b[0] == "c":
+            return math.hypot(a[1]["x"] - b[1]["x"], a[1]["y"] - b[1]["y"])
+        if a[0] == "c":
+            return seg_dist(a[1], b[1]["start"], b[1]["end"])
+        if b[0] == "c":
+            return seg_dist(b[1], a[1]["start"], a[1]["end"])
+        return seg_seg_dist(a[1]["start"], a[1]["end"], b[1]["start"], b[1]["end"])
+
+    def m_intersects(ev, args):
+        a, b = ev.ev(args[0]), ev.ev(args[1])
+
+        def pts(v):
+            if "start" in v:
+                return v["start"], v["end"]
+            c = v["0"] if "0" in v else v
+            return c, c
+        (a0, a1), (b0, b1) = pts(a), pts(b)
+        return segs_intersect(a0, a1, b0, b1)
+    n = 0
+    for im in F.impls_of(DIST):
+        if not im["self_ty"].endswith("euclidean::Euclidean"):
+            continue
+        ta = im["trait_args"][2:]
+        ks = [kind(t) for t in ta]
+        if None in ks or len(ks) != 2:
+            continue
+        key = "%s-%s" % tuple(ks)
+        if only and key not in only:
+            continue
+        fn = F.impl_fn(im, "distance")
+        try:
+            ex = Symex(F, inline_crates=("geo", "geo_types"), max_depth=12, no_inline=[r"Intersects<.*>>::intersects$", r"::intersects$"])
+            paths = [p for p in ex.run(fn) if p.kind != "cut"]
+        except Unanalysable as e:
+            rep.bad(rule, "small-pair:%s:unanalysable" % key, str(e), where=fn.loc())
+            continue
+        calls = {}
+        for p in paths:
+            for t, _ in p.pc:
+                pass
+
+        class Ev(NumEval):
+            def call(self, t):
+                if t[1].endswith("::intersects") and len(t[2]) == 2:
+                    return m_intersects(self, t[2])
+                return NumEval.call(self, t)
+        bad = None
+        k = 0
+        va, vb = values(ks[0]), values(ks[1])
+        if ks == ["Line", "Line"]:
+            va, vb = va[::3], vb[::2]
+        for a, ea in va:
+            for b, eb in vb:
+                ev = Ev(F, {("arg", 2): a, ("arg", 3): b})
+                try:
+                    hit = ev.select_path(paths)
+                    if len(hit) != 1 or hit[0].kind != "ret":
+                        bad = "witness %s / %s selects %s" % (ea[1], eb[1], [h.kind for h in hit])
+                        break
+                    got = float(ev.ev(hit[0].ret))
+                except (NoModel, TypeError, KeyError, ValueError) as e:
+                    bad = "not evaluable on %s / %s: %s" % (ea[1], eb[1], e)
+                    break
+                want = exact(ea, eb)
+                k += 1
+                if not (abs(got - want) <= 1e-9):
+                    bad = "distance(%s, %s) evaluates to %.6g, the exact minimum distance is %.6g" % (ea[1], eb[1], got, want)
+                    break
+            if bad:
+                break
+        if bad:
+            rep.bad(rule, "small-pair:%s" % key, "%s: %s" % (key, bad), where=fn.loc())
+        else:
+            n += 1
+            rep.ok(rule, "small-pair:%s[%d witnesses]" % (key, k))
+    if not only:
+        rep.floor(rule, "Distance impls between Coord / Point / Line", n, 8)
+
+
+def contains_point_table(rep, F, rule="R7.9"):
+    """geo_types::private_utils::line_string_contains_point (the zero shortcut of Point-LineString, see the known finding of R7.2) on line strings
+    of 2 and 3 coordinates of a 3x3 grid: true exactly when the point lies on a segment.  On such witnesses its epsilon test is exact (the
+    two axis parameters are the same rational or differ by at least 1/4), so any disagreement is a wrong branch, not rounding."""
+    from ..numeval import NumEval, on_seg
+    from ..evalterm import NoModel
+    import itertools
+    rep.rule(rule, "line_string_contains_point (2 and 3 coordinates, exact unrolling, 3x3 grid): true exactly when the point lies on one of the segments")
+    try:
+        fn = F.one(r"^geo_types::private_utils::line_string_contains_point$", crates=("geo_types",))
+    except KeyError as e:
+        rep.bad(rule, "contains-point:anchor", str(e))
+        return
+    LS = "geo_types::geometry::line_string::LineString"
+    grid = [{"x": x, "y": y} for x in range(3) for y in range(3)]
+    k = 0
+    for n in (2, 3):
+        ls = ("adt", LS, "LineString", (("call", "vec!", (("array", tuple(("opaque", "v%d" % i) for i in range(n))),)),))
+        try:
+            ex = Symex(F, concrete_iters=True, loop_bound=8, inline_crates=("geo", "geo_types"), max_depth=12)
+            paths = [p for p in ex.run(fn, args=[("&", ls), ("arg", 2)]) if p.kind != "cut"]
+        except Unanalysable as e:
+            rep.bad(rule, "contains-point:unanalysable", str(e), where=fn.loc())
+            return
+        combos = itertools.product(grid, repeat=n) if n == 2 else [c for c in itertools.product(grid[::2] + [grid[1]], repeat=3)]
+        for vs in combos:
+            for q in grid:
+                env = {("opaque", "v%d" % i): vs[i] for i in range(n)}
+                env[("arg", 2)] = {"0": q}
+                ev = NumEval(F, env)
+                try:
+                    hit = ev.select_path(paths)
+                    got = sorted(set(bool(ev.ev(h.ret)) if h.kind == "ret" else "panic" for h in hit))
+                except (NoModel, TypeError, KeyError, ValueError) as e:
+                    rep.bad(rule, "contains-point:non-abstractable", "not evaluable on %s / %s: %s" % ([(v["x"], v["y"]) for v in vs], (q["x"], q["y"]), e), where=fn.loc())
+                    return
+                want = any(on_seg(q, vs[i], vs[i + 1]) for i in range(n - 1))
+                k += 1
+                if got != [want]:
+                    rep.bad(rule, "contains-point:table", "line_string_contains_point(%s, %s) evaluates to %s, exact geometry says %s" %
+                            ([(v["x"], v["y"]) for v in vs], (q["x"], q["y"]), got, want), where=fn.loc())
+                    return
+    rep.ok(rule, "contains-point[%d witnesses]" % k)
